@@ -307,7 +307,7 @@ def register(reg):
     @reg.contract
     class URLInit(Contract):
         key = URL + ".__init__"
-        props = ("C19", "C03", "C11", "C10")
+        props = ("C19", "C03", "C11", "C10", "C15")
         suspends = False
         variants = [
             ("url_bytes", {"url": "bytes", "scheme": "bytes", "host": "bytes", "port": "opt:int", "target": "bytes"}),
@@ -343,12 +343,18 @@ def register(reg):
                 ]
                 if isinstance(u, VStr):
                     out.append(("str_url_is_ascii", ("C19",), is_ascii_str(u.t)))
+                # every connect decodes the host with .decode("ascii") (class invariant `Origin.host is ASCII`, ASSUMED by the
+                # connection contracts): it is established here or nowhere.  Text input is ASCII by enforce_bytes; raw bytes
+                # input is not validated at all -> UnicodeDecodeError reaches the caller (design_probes/p36, known finding)
+                is_ascii_bytes = z3.Function("is_ascii_bytes", BytesS, BoolS)
+                out.append(("host_is_ascii_the_invariant_every_connect_relies_on", ("C15",), True if isinstance(u, VStr) else is_ascii_bytes(F(c, s, "URL.host"))))
             else:
                 enc = lambda x: x.t if isinstance(x, VBytes) else encode_ascii(x.t)  # noqa: E731
                 out += [
                     ("components_stored", ("C19",), z3.And(
                         F(c, s, "URL.scheme") == enc(c.args["scheme"]), F(c, s, "URL.host") == enc(c.args["host"]),
                         F(c, s, "URL.target") == enc(c.args["target"]), c.eng.eq(c.st, c.new(s, "URL.port"), c.args["port"]))),
+                    ("host_is_ascii_the_invariant_every_connect_relies_on", ("C15",), True if isinstance(c.args["host"], VStr) else z3.Function("is_ascii_bytes", BytesS, BoolS)(F(c, s, "URL.host"))),
                 ]
             return out
 
